@@ -50,9 +50,16 @@ def elemLoop (S : TxHS) (size : Nat) : Nat → Nat → Nat → Nat × List Nat
       (r.1, c :: r.2)
     | none => elemLoop S size fuel (idx+1) room
 
+/-- the upper bound of the loop: nothing exists beyond the size of the MMR, whatever bound the
+caller asks for (`min(max_pmmr_pos1, self.size)`; before repair 565fae636 the requested bound itself) -/
+def enumBound (S : TxHS) (maxIdx : Option Nat) : Nat :=
+  match maxIdx with
+  | some p => min p S.mmrSize
+  | none => S.mmrSize
+
 /-- `ReadonlyPMMR::elements_from_pmmr_index(pmmr_index1, max_count, max_pmmr_pos1)` -/
 def elementsFromPmmrIndex (S : TxHS) (start maxCount : Nat) (maxIdx : Option Nat) : Nat × List Nat :=
-  let size := maxIdx.getD S.mmrSize
+  let size := S.enumBound maxIdx
   let idx := start - 1
   elemLoop S size (size - idx) idx maxCount
 
